@@ -5,6 +5,7 @@ import rxsci.data.codec as codec
 from vp import drivers as D
 from vp.engine import Ob
 from vp.harness import mk, fail
+from vp import harness
 from vp.stubs import codecs_model as M
 
 PROP = 'C17'
@@ -30,13 +31,8 @@ def _sel(x, n):
 
 
 def _with_stub(f):
-    mod = sys.modules['rxsci.data.codec']
-    real = mod.codecs
-    mod.codecs = M.FakeCodecs
-    try:
+    with harness.stubbed([('rxsci.data.codec', 'codecs', M.FakeCodecs)]):
         return f()
-    finally:
-        mod.codecs = real
 
 
 def roundtrip(p):
